@@ -215,7 +215,7 @@ func notations(ts []TraceItem) []string {
 		switch t.Prim {
 		case "loop":
 			out = append(out, "loop{"+strings.Join(notations(t.Body), " ")+"}")
-		case "case":
+		case "case", "typecase":
 		default:
 			out = append(out, t.Prim)
 		}
